@@ -2549,6 +2549,7 @@ void uncrustify_end()
    cpd.changes     = 0;
    cpd.in_preproc  = CT_NONE;
    cpd.last_char   = 0;       // a trailing CR must not turn into a newline in front of the next file
+   cpd.spaces      = 0;       // nor pending blanks into blanks in front of its first character
    memset(cpd.le_counts, 0, sizeof(cpd.le_counts));
    cpd.preproc_ncnl_count                     = 0;
    cpd.ifdef_over_whole_file                  = 0;
